@@ -276,7 +276,7 @@ def queues(ck, ctx):
     F = ctx.F
     # who pushes where
     push_sites = {}
-    for b in F.all_bodies():
+    for b in F.view_bodies():
         R = None
         for bb, t in b.calls():
             c = callee_of(t)
@@ -351,79 +351,12 @@ def ready_want(ck, ctx):
         ck.ob("ready-want", "ordering-loop#%d|iterates-own-build" % i, builds_ok, "the readiness loop iterates ordering_ins of graph.builds[<id param>]", span=t["loc"], fn=b.nname)
         # (1) the loop precedes the state decision: the call dominates set
         ck.ob("ready-want", "ordering-loop#%d|before-set" % i, set_bb is not None and cfg.dominates(cfg.enclosing_loop_header(bb) or bb, set_bb), "all ordering inputs are visited before the state is decided", span=t["loc"], fn=b.nname)
-        # (2) a `false` answer kills readiness: from the Continue/false edge the loop header (or exit) is reached only through `ready = false`
-        tries = C.try_err_edges(ctx, b)
-        flag_locals = set()
-        fin = None
-        for tb, (cont, brk, ope) in tries.items():
-            if ope is not None and any(c[1] == "work::BuildStates::want_file" and c[3] == bb for c in calls_in(ope)):
-                fin = (tb, cont, brk)
-        if fin is None:
-            ck.ob("ready-want", "ordering-loop#%d|result-used" % i, False, "result of want_file is not propagated with `?`", span=t["loc"], fn=b.nname)
-            continue
-        tb, cont, brk = fin
-        # switch on the bool payload
-        sw = None
-        for sbb, st, e in Q.switches(ctx, b):
-            pe = payload_of(e)
-            neg = False
-            ee = e
-            while ee[0] == "un" and ee[1] == "Not":
-                ee = ee[2]
-                neg = not neg
-            pe = payload_of(ee)
-            if pe and pe[0].endswith("::branch") and pe[1] == "Continue" and any(c[1] == "work::BuildStates::want_file" and c[3] == bb for c in calls_in(ee)):
-                tl, fl = Q.bool_edges(st)
-                sw = (sbb, fl if not neg else tl)
-        if sw is None:
-            ck.ob("ready-want", "ordering-loop#%d|false-kills" % i, False, "no branch on want_file's answer found", span=t["loc"], fn=b.nname)
-            continue
-        # the readiness flag: bool locals assigned const false on blocks reachable from the false edge
-        kill = []
-        for bi in cfg.reach:
-            for s in b.blocks[bi]["stmts"]:
-                if s["k"] == "assign" and not s["place"]["p"] and b.local_ty(s["place"]["l"]) == "bool" and s["rv"]["k"] == "use" and s["rv"]["op"]["k"] == "const" and s["rv"]["op"]["int"] == 0 and s["place"]["l"] in b.names:
-                    kill.append((bi, s["place"]["l"]))
-        flags = {l for _, l in kill}
-        okk = False
-        flag = None
-        for fl_ in flags:
-            kb = [bi for bi, l in kill if l == fl_]
-            hdr = cfg.enclosing_loop_header(bb)
-            starts = cfg.edge_targets(sw[0], sw[1])
-            r = cfg.reach_avoid(starts, avoid_blocks=kb)
-            if hdr not in r and set_bb not in r:
-                okk = True
-                flag = fl_
-        ck.ob("ready-want", "ordering-loop#%d|false-kills" % i, okk, "after want_file(..)? == false every path to the next iteration passes `%s = false`" % (b.local_name(flag) if flag is not None else "<flag>"), span=t["loc"], fn=b.nname)
-        # (3) Ready is chosen only under the flag: the new-state operand is Ready only on the flag's true edge
-        if flag is not None and sets:
-            def predf(e):
-                e2 = strip(e)
-                return any(a == ("const", 1) or a == ("const", 0) for a in alts(e2)) and _is_local(ctx, b, e, flag)
-            gates = set()
-            for sbb, st, e in Q.switches(ctx, b):
-                d = st["discr"]
-                if d["k"] in ("copy", "move") and not d["place"]["p"]:
-                    src = _copy_source(b, sbb, d["place"]["l"])
-                    if src == flag:
-                        tl, fl2 = Q.bool_edges(st)
-                        gates.add((sbb, tl))
-            ready_assign = []
-            for bi in cfg.reach:
-                for s in b.blocks[bi]["stmts"]:
-                    if s["k"] == "assign" and s["rv"]["k"] == "agg" and norm(s["rv"]["name"]) == STATE and s["rv"]["variant"] == "Ready":
-                        ready_assign.append(bi)
-            okg = bool(ready_assign) and all(Q.gated(cfg, ra, gates)[0] for ra in ready_assign)
-            ck.ob("ready-want", "ordering-loop#%d|ready-under-flag" % i, okg, "BuildState::Ready is constructed in want_build only on the true edge of `%s` (gates %s)" % (b.local_name(flag), sorted(gates)), span=t["loc"], fn=b.nname)
-            # flag definitions: exactly `true` before the loop and `false` in the loop
-            defs = [(bi, s) for bi in cfg.reach for s in b.blocks[bi]["stmts"] if s["k"] == "assign" and not s["place"]["p"] and s["place"]["l"] == flag]
-            vals = sorted((s["rv"]["op"]["int"] if s["rv"]["k"] == "use" and s["rv"]["op"]["k"] == "const" else None) for _, s in defs)
-            hdr = cfg.enclosing_loop_header(bb)
-            loop = cfg.natural_loop(hdr) if hdr is not None else set()
-            ok_defs = vals.count(1) == 1 and None not in vals and all((bi in loop) == (s["rv"]["op"]["int"] == 0) for bi, s in defs)
-            ck.ob("ready-want", "ordering-loop#%d|flag-defs" % i, ok_defs, "readiness flag `%s` is set true once before the loop and only cleared inside it (defs %s)" % (b.local_name(flag), vals), span=t["loc"], fn=b.nname)
+        # (2)+(3) what state is handed to `set`: decided by path-sensitive propagation with a ghost bit "some ordering input
+        # answered false" (independent of how the flag is spelled: `ready = false`, `ready = ready && r`, `if ready {Ready} else {Want}`)
+        if i == 0:
+            _state_decision(ck, ctx, b, {x for x, _ in ord_sites})
         # (4) no early exit from the loop other than `?`
+        tries = C.try_err_edges(ctx, b)
         hdr = cfg.enclosing_loop_header(bb)
         if hdr is not None:
             loop = cfg.natural_loop(hdr)
@@ -451,36 +384,63 @@ def ready_want(ck, ctx):
         base, names = field_chain(be)
         okb = "input" in names and any(c[1] == "graph::Graph::file" for c in calls_in(be))
         ck.ob("ready-want", "want_file->want_build#%d|producer" % i, okb, "want_file recurses into the producer of the file: %s" % show(be, 3), span=t["loc"], fn=wfb.nname)
-        tries = C.try_err_edges(ctx, wfb)
-        cont_targets = []
-        for tb, (cont, brk, ope) in tries.items():
-            if ope is not None and any(c[1] == "work::BuildStates::want_build" and c[3] == bb for c in calls_in(ope)):
-                cont_targets += cfg2.edge_targets(tb, cont)
+    _want_file_answer(ck, ctx, wfb)
 
-        def pred(e):
-            e = strip(e)
-            if e[0] != "call":
-                return False
-            is_ne = e[1].endswith("::ne")
-            if not (e[1].endswith("::eq") or is_ne):
-                return False
-            a, c2 = strip(e[2][0]), strip(e[2][1])
-            for x, y in ((a, c2), (c2, a)):
-                if y[0] == "promoted" and y[2] == ("enum", STATE, "Done") and any(cc[1] == "work::BuildStates::want_build" and cc[3] == bb for cc in calls_in(x)):
-                    return "neg" if is_ne else True
-            return False
 
-        done_edges = C.bool_gate_edges(ctx, wfb, pred)
-        kill = [bi for bi in cfg2.reach for s in wfb.blocks[bi]["stmts"] if s["k"] == "assign" and not s["place"]["p"] and wfb.local_ty(s["place"]["l"]) == "bool" and s["place"]["l"] in wfb.names and s["rv"]["k"] == "use" and s["rv"]["op"]["k"] == "const" and s["rv"]["op"]["int"] == 0]
-        r = cfg2.reach_avoid(cont_targets, avoid_blocks=kill, avoid_edges=done_edges)
-        rets = set(cfg2.returns())
-        ck.ob("ready-want", "want_file->want_build#%d|not-done-not-ready" % i, bool(cont_targets) and not (r & rets), "after want_build(..)? every path to return passes `state == Done` or clears the ready flag (Done edges %s, clearing blocks %s)" % (sorted(done_edges), sorted(set(kill))), span=t["loc"], fn=wfb.nname)
-    # the returned flag is that bool
-    for bb, s in Q.ret_assignments(wfb):
-        if "rv" in s and s["rv"]["k"] == "agg" and s["rv"]["variant"] == "Ok":
-            e = R2.agg_op(bb, s, 0)
-            vals = {a for a in alts(e)}
-            ck.ob("ready-want", "want_file|returns-flag", vals <= {("const", 0), ("const", 1)} and ("const", 1) in vals, "want_file returns Ok(%s)" % show(e), span=s.get("loc"), fn=wfb.nname)
+def _state_decision(ck, ctx, b, ord_bbs):
+    from n2sa.flagint import FlagInt, RESULT
+    F = ctx.F
+
+    def hook(fi, bi, t, callee, args, vals, ghost):
+        if callee == "work::BuildStates::want_file":
+            g2 = dict(ghost)
+            if bi in ord_bbs:
+                g2["seen_false"] = True
+            return [(("en", RESULT, "Ok", (("b", True),)), ghost), (("en", RESULT, "Ok", (("b", False),)), g2), (("en", RESULT, "Err", None), ghost)]
+        if callee == SM.SET:
+            fi.observe("set", bi, fi._deref(vals, args[3]) if len(args) > 3 else None, ghost)
+        return None
+
+    fi = FlagInt(F, b, hook).run()
+    obs = [o for o in fi.obs if o[0] == "set"]
+    bad = []
+    for _, bb, st, g in obs:
+        seen_false = dict(g).get("seen_false", False)
+        want = "Want" if seen_false else "Ready"
+        if not (st is not None and st[0] == "en" and st[1] == STATE and st[2] == want):
+            bad.append("some input not ready=%s -> %s" % (seen_false, st[2] if st and st[0] == "en" else "undetermined"))
+    ck.ob("ready-want", "ordering-loop#0|state-decision", bool(obs) and not bad and not fi.capped, "want_build hands `set` Ready exactly when every ordering input's want_file answered true, else Want (%d abstract paths to set; %s)" % (len(obs), bad or "all consistent"), span=b.loc, fn=b.nname)
+    ck.extra.setdefault("flagint", {})["want_build"] = dict(states_explored=fi.visited, observations=len(obs))
+
+
+def _want_file_answer(ck, ctx, wfb):
+    """want_file answers Ok(true) exactly when the file has no producer or want_build returned Done"""
+    from n2sa.flagint import FlagInt, RESULT
+    F = ctx.F
+    variants = F.variants(STATE)
+
+    def hook(fi, bi, t, callee, args, vals, ghost):
+        if callee == "work::BuildStates::want_build":
+            r = [(("en", RESULT, "Err", None), dict(ghost, err=True))]
+            for v in variants:
+                r.append((("en", RESULT, "Ok", (("en", STATE, v, ()),)), dict(ghost, wb=v)))
+            return r
+        return None
+
+    fi = FlagInt(F, wfb, hook).run()
+    bad = []
+    n = 0
+    for g, rv in fi.rets:
+        g = dict(g)
+        if rv is not None and rv[0] == "en" and rv[2] == "Err":
+            continue
+        n += 1
+        want = g.get("wb", "Done") == "Done"
+        got = rv[3][0] if rv is not None and rv[0] == "en" and rv[2] == "Ok" and rv[3] else None
+        if got != ("b", want):
+            bad.append("producer %s -> %s" % (g.get("wb", "none"), got[1] if got and got[0] == "b" else "undetermined"))
+    ck.ob("ready-want", "want_file|answer-table", n >= len(variants) + 1 and not bad and not fi.capped, "want_file returns Ok(true) exactly when the file has no producer or want_build(..)? returned Done (%d return paths; %s)" % (n, bad or "all consistent"), span=wfb.loc, fn=wfb.nname)
+    ck.extra.setdefault("flagint", {})["want_file"] = dict(states_explored=fi.visited, returns=n)
 
 
 def _copy_source(body, bb, l):
@@ -497,23 +457,26 @@ def _is_local(ctx, b, e, l):
     return True
 
 
+def _state_reads(b):
+    """call sites in (the view of) b that yield a BuildState or a reference to one: BuildStates::get, states[id], a helper's read"""
+    r = []
+    for bb, t in b.calls():
+        ty = ((t["dest"].get("ty") or {}).get("s") or "").replace("&'_ ", "&").replace("&mut ", "&")
+        if ty in (STATE, "&" + STATE) and t["args"] and len(t["args"]) >= 2:
+            r.append((bb, t))
+    return r
+
+
 def ready_recheck(ck, ctx):
+    from n2sa.flagint import FlagInt
     F = ctx.F
     b = ck.need("fn work::Work::recheck_ready", F.body("work::Work::recheck_ready"))
     R = ctx.res(b)
     cfg = ctx.cfg(b)
     ck.functions.add(b.nname)
-    # state tests on the producer: BuildStates::get(..) compared with Done, or a bool helper whose truth table over
-    # the seven states is computed by finite-domain interpretation (an edge counts as `Done` only if every state it
-    # admits is Done)
-    gets = Q.sites_in(b, "work::BuildStates::get")
-    helpers = []
-    for bb, t in b.calls():
-        c = callee_of(t)
-        if c.startswith("work::BuildStates::") and c != "work::BuildStates::get" and F.body(c) is not None and F.body(c).locals[0]["s"] == "bool":
-            tab = SM.state_predicate_table(F, c)
-            helpers.append((bb, t, c, tab))
-    ck.floor("state tests on the producer in recheck_ready", len(gets) + len(helpers), 1)
+    # state tests on the producer: any read of a BuildState (BuildStates::get, states[id], through a private helper inlined in the view)
+    gets = _state_reads(b)
+    ck.floor("state tests on the producer in recheck_ready", len(gets), 1)
     # iterates ordering_ins of its build parameter
     its = [c for bb, t in b.calls() for c in [callee_of(t)] if c.startswith("graph::Build::") and c.endswith("_ins")]
     ck.ob("ready-recheck", "iterates", its == ["graph::Build::ordering_ins"], "recheck_ready iterates %s (need exactly ordering_ins)" % its, span=b.loc, fn=b.nname)
@@ -525,10 +488,10 @@ def ready_recheck(ck, ctx):
             ck.ob("ready-recheck", "all-ordering-inputs", whole, "every ordering input is examined (no limiting iterator adapter: %s)" % bad_ad, span=t["loc"], fn=b.nname)
     # `true` only when the iterator is exhausted
     trues = []
-    falses = []
     for bb, s in Q.ret_assignments(b):
         if "rv" in s and s["rv"]["k"] == "use" and s["rv"]["op"]["k"] == "const":
-            (trues if s["rv"]["op"]["int"] == 1 else falses).append(bb)
+            if s["rv"]["op"]["int"] == 1:
+                trues.append(bb)
         else:
             trues.append(bb)  # non-constant result: treat as possibly true
     none_edges = set()
@@ -536,10 +499,8 @@ def ready_recheck(ck, ctx):
         s_ = strip(scrut)
         if adt == "std::option::Option" and s_[0] == "call" and s_[1].endswith("Iterator>::next") and any(c[1] == "graph::Build::ordering_ins" for c in calls_in(s_)):
             none_edges.add((x, vmap.get("None")))
-    ok = bool(trues) and all(Q.gated(cfg, tb, none_edges)[0] for tb in trues)
-    ck.ob("ready-recheck", "true-only-at-exhaustion", ok, "recheck_ready yields true only on the iterator's None edge (true blocks %s, None edges %s)" % (trues, sorted(none_edges)), span=b.loc, fn=b.nname)
-    tests = [(bb, t, "get", None) for bb, t in gets] + [(bb, t, c, tab) for bb, t, c, tab in helpers]
-    for i, (bb, t, kind, tab) in enumerate(tests):
+    # which state is read: that of the producer of the iterated file
+    for i, (bb, t) in enumerate(gets):
         ide = strip(R.arg(bb, 1))
         base, names = field_chain(ide)
         okp = "input" in names and any(c[1] == "graph::Graph::file" for c in calls_in(ide))
@@ -547,55 +508,40 @@ def ready_recheck(ck, ctx):
         fe = [c for c in calls_in(ide) if c[1] == "graph::Graph::file"]
         okf = bool(fe) and any(cc[1] == "graph::Build::ordering_ins" for cc in calls_in(fe[0][2][1]))
         ck.ob("ready-recheck", "get#%d|iterated-file" % i, okf, "the file examined is the iterated ordering input", span=t["loc"], fn=b.nname)
-        done_edges = set()
-        if kind == "get":
+    # the answer: path-sensitive propagation with the ghost bit "some producer read was not Done", whatever the spelling
+    # (`!= Done => return false`, `matches!`, a bool helper, `ready &= ..`)
+    variants = F.variants(STATE)
+    get_bbs = {bb for bb, _ in gets}
 
-            def pred(e):
-                e = strip(e)
-                if e[0] != "call":
-                    return False
-                is_ne = e[1].endswith("::ne")
-                if not (e[1].endswith("::eq") or is_ne):
-                    return False
-                a, c2 = strip(e[2][0]), strip(e[2][1])
-                for x, y in ((a, c2), (c2, a)):
-                    if y[0] == "promoted" and y[2] == ("enum", STATE, "Done") and x[0] == "call" and x[1] == "work::BuildStates::get" and x[3] == bb:
-                        return "neg" if is_ne else True
-                return False
+    def hook(fi, bi, t, callee, args, vals, ghost):
+        if bi in get_bbs:
+            is_ref = ((t["dest"].get("ty") or {}).get("s") or "").startswith("&")
+            out = []
+            for v in variants:
+                val = ("en", STATE, v, ())
+                out.append((("cref", val) if is_ref else val, dict(ghost, non_done=True) if v != "Done" else ghost))
+            return out
+        return None
 
-            done_edges = C.bool_gate_edges(ctx, b, pred)
-            desc = "`== Done`"
-        else:
-            desc = "%s (truth table %s)" % (kind.split("::")[-1], tab)
-            if tab is not None:
-                for sbb, st, e in Q.switches(ctx, b):
-                    neg = False
-                    ee = e
-                    while ee[0] == "un" and ee[1] == "Not":
-                        ee = ee[2]
-                        neg = not neg
-                    ee = strip(ee)
-                    if ee[0] == "call" and ee[3] == bb:
-                        tl, fl = Q.bool_edges(st)
-                        for val, lab in ((True, tl), (False, fl)):
-                            v = (not val) if neg else val
-                            admitted = {s_ for s_, r_ in tab.items() if r_ == v}
-                            if admitted and admitted <= {"Done"}:
-                                done_edges.add((sbb, lab))
-        hdr = cfg.enclosing_loop_header(bb)
-        nxt = [x for x, _ in cfg.succ[bb]]
-        r = cfg.reach_avoid(nxt, avoid_edges=done_edges)
-        bad = (hdr in r) or any(tb in r for tb in trues)
-        ck.ob("ready-recheck", "get#%d|not-done-returns-false" % i, bool(done_edges) and not bad, "after the state test %s the loop continues (or true is returned) only on an edge that admits no state but Done (edges %s)" % (desc, sorted(done_edges)), span=t["loc"], fn=b.nname)
-    gets = [(bb, t) for bb, t, _, _ in tests]
-    # the loop body cannot skip a generated input: from the Some(input) arm the get call is unavoidable
+    fi = FlagInt(F, b, hook).run()
+    bad = []
+    for g, rv in fi.rets:
+        nd = dict(g).get("non_done", False)
+        if rv != ("b", not nd):
+            bad.append("some producer not Done=%s -> %s" % (nd, rv[1] if rv and rv[0] == "b" else "undetermined"))
+    ck.ob("ready-recheck", "answer-table", len(fi.rets) >= 2 and not bad and not fi.capped, "recheck_ready answers true exactly when no examined producer state differs from Done (%d abstract returns; %s)" % (len(fi.rets), bad or "all consistent"), span=b.loc, fn=b.nname)
+    ck.extra.setdefault("flagint", {})["recheck_ready"] = dict(states_explored=fi.visited, returns=len(fi.rets))
+    # the loop body cannot skip a generated input: from the Some(input) arm the state read is unavoidable
+    found = False
     for x, t_, scrut, adt, vmap in Q.enum_switches(ctx, b):
         base, names = field_chain(strip(scrut))
         if adt == "std::option::Option" and names[-1:] == ["input"]:
+            found = True
             some_t = cfg.edge_targets(x, vmap.get("Some"))
             hdr = cfg.enclosing_loop_header(x)
             r = cfg.reach_avoid(some_t, avoid_blocks=[g for g, _ in gets])
             ck.ob("ready-recheck", "generated-input-checked", hdr not in r and not any(tb in r for tb in trues), "for an input with a producer the state lookup cannot be bypassed", span=t_.get("loc"), fn=b.nname)
+    ck.ob("ready-recheck", "producer-test-present", found, "recheck_ready branches on file.input", span=b.loc, fn=b.nname)
 
 
 def success_only(ck, ctx, rule="success-only"):
